@@ -408,7 +408,7 @@ def _load_ordered_votes(lines: Iterable[Tuple[Number, List[str]]],
         if indices != tuple(range(1, len(indices)+1)):
             raise STVParseError(f'invalid ranking indices: {indices!r}'
                                 f' on ballot line {line_i}')
-        votes[vote] += mult
+        votes[vote] = votelib.io.core.add_weights(votes[vote], mult)
     return votes
 
 
@@ -423,7 +423,7 @@ def _load_unordered_votes(lines: Iterable[Tuple[Number, List[str]]],
         except KeyError as err:
             raise STVParseError(f'unknown candidate in ballot line {line_i}') \
                 from err
-        votes[vote] += mult
+        votes[vote] = votelib.io.core.add_weights(votes[vote], mult)
     return votes
 
 
